@@ -162,6 +162,37 @@ func countFamilies(mfs []*dto.MetricFamily) gathered {
 	return g
 }
 
+// iterationSumMicros is the sum of the exported iteration summary (stage "iteration", result success), in microseconds.
+func iterationSumMicros(reg *prometheus.Registry) int64 {
+	mfs, err := reg.Gather()
+	if err != nil {
+		return -1
+	}
+	var total float64
+	for _, mf := range mfs {
+		if mf.GetName() != "form3_loadtest_iteration" {
+			continue
+		}
+		for _, m := range mf.GetMetric() {
+			res, stage := "", ""
+			for _, l := range m.GetLabel() {
+				if l.GetName() == "result" {
+					res = l.GetValue()
+				}
+				if l.GetName() == "stage" {
+					stage = l.GetValue()
+				}
+			}
+			if stage == "iteration" && res == "success" {
+				if sm := m.GetSummary(); sm != nil {
+					total += sm.GetSampleSum()
+				}
+			}
+		}
+	}
+	return int64(total / 1000) // the summary is in nanoseconds
+}
+
 func sampleCount(m *dto.Metric) uint64 {
 	if s := m.GetSummary(); s != nil {
 		return s.GetSampleCount()
